@@ -150,7 +150,7 @@ func HarnessC15() {
 		data, target    string
 		explicit        bool
 	}
-	got := envSnapshot(unpackDst)
+	got := envSnapshot(unpackDstReal)
 	for _, g := range got {
 		gp := c15Clean(g.Path)
 		var w want
